@@ -246,8 +246,9 @@ def end_execution_contract():
             # C15: a waiting parent task is completed on every terminal path, before the notification
             ("C15:parent-completed-before-notification", "n_sfn == old(n_sfn) + 1 and bn_nsfn == n_sfn and same(sfn_arn, old(%s)) "
                                                          "and same(sfn_detail, %s)" % (EXEC_ARN, DET)),
-            # C03: a successful end releases the join state of the execution
-            ("C03:success-releases-join-state", "implies(not %s, not (old(%s) in self.branch_metadata))" % (FAILED_IN, EXEC_ARN)),
+            # C03 (and with it C02/C11: left-over join state is what the heartbeat back-stop later fails): a successful end
+            # releases the join state of the execution
+            ("C02,C03,C11:success-releases-join-state", "implies(not %s, not (old(%s) in self.branch_metadata))" % (FAILED_IN, EXEC_ARN)),
             # C09: EXPRESS stores nothing
             ("C09:express-stores-nothing", "implies(old(state_machine.get('type')) != 'STANDARD', "
                                            "unchanged(self.executions) and unchanged(self.execution_history))"),
